@@ -206,6 +206,15 @@ impl<'a, P: ?Sized + PathImpl> PathMutImpl<'a, P> {
 		for (i, segment) in self.normalized_segments().enumerate() {
 			if i > 0 {
 				buffer.push(b'/')
+			} else if (segment.is_empty() && !(self.follows_authority && self.is_absolute()))
+				|| (self.start == 0 && parse::first_segment_has_colon(segment.as_bytes()))
+			{
+				// Same disambiguation as in `push`: an empty first segment (unless
+				// the path is absolute and follows an authority) or one containing
+				// `:` at the start of a reference needs a `.` shield, otherwise the
+				// path would change between relative and absolute, or be read as
+				// an authority or a scheme.
+				buffer.extend_from_slice(b"./")
 			}
 
 			buffer.extend_from_slice(segment.as_bytes())
